@@ -423,6 +423,11 @@ pub struct Minimised<C: Case> {
     pub replays: u64,
 }
 
+/// Every failing run leaves its simulated OS threads parked (they cannot be
+/// unwound); the minimiser stops shrinking before the process runs out of
+/// threads / memory mappings.
+const MAX_LEAKED_THREADS: u64 = 6_000;
+
 fn first_of_class<C: Case>(
     scn: &C,
     prop: Prop,
@@ -430,6 +435,9 @@ fn first_of_class<C: Case>(
     strategy: &StrategySpec,
     class: &str,
 ) -> Option<(RunResult, Violation)> {
+    if dsim::sim::leaked_threads() > MAX_LEAKED_THREADS {
+        return None;
+    }
     let (r, out) = one_run(scn, seed, strategy.clone());
     if r.failure.as_ref().is_some_and(|f| f.is_harness_error()) {
         return None;
@@ -463,12 +471,13 @@ pub fn minimise<C: Case>(prop: Prop, f: &Found<C>, budget: Duration) -> Minimise
     let mut scenario_steps = 0usize;
 
     // Phase 1: scenario shrinking.
+    let over = || dsim::sim::leaked_threads() > MAX_LEAKED_THREADS;
     'outer: loop {
-        if start.elapsed() > budget {
+        if start.elapsed() > budget || over() {
             break;
         }
         for cand in scn.shrink_candidates() {
-            if start.elapsed() > budget {
+            if start.elapsed() > budget || over() {
                 break 'outer;
             }
             // The schedule necessarily changes with the scenario: try the
@@ -505,7 +514,7 @@ pub fn minimise<C: Case>(prop: Prop, f: &Found<C>, budget: Duration) -> Minimise
         if first_of_class(&scn, prop, seed, &as_dev, &class).is_some() {
             violation = v;
             let mut chunk = (devs.len() / 2).max(1);
-            while !devs.is_empty() && start.elapsed() < budget {
+            while !devs.is_empty() && start.elapsed() < budget && !over() {
                 let mut progressed = false;
                 let mut i = 0;
                 while i < devs.len() {
